@@ -44,10 +44,10 @@ def replay(inp):
     return "unknown replay kind"
 
 
-def header_roundtrip(v):
+def header_roundtrip(v, minor=4):
     import laspy
     from laspy.header import GlobalEncoding
-    h = laspy.LasHeader(version="1.4", point_format=6)
+    h = laspy.LasHeader(version=f"1.{minor}", point_format=6 if minor == 4 else 1)
     h.global_encoding = GlobalEncoding(v)
     buf = io.BytesIO()
     h.write_to(buf)
@@ -71,6 +71,78 @@ def history_oracle(v, ops):
         if g.value != expect:
             return f"history from {v}: after {flag}={b} value is {g.value}, expected {expect}"
     return None
+
+
+def lasdata_layer(ck, n_cases):
+    """the field as part of a LasData: flag assignments interleaved with operations that have nothing to do with it (points
+    assignment, filtering, header update, VLR edits), then a file round trip and an append session: the field is what the
+    assignments made it, in memory and in the file"""
+    import laspy
+    import numpy as np
+    from laspy.header import GlobalEncoding, GpsTimeType
+    from laspy.vlrs.known import WktCoordinateSystemVlr
+    for ci in range(n_cases):
+        minor = [1, 2, 3, 4][ci % 4]
+        fmt = ck.rng.choice([0, 1] if minor < 2 else [0, 1, 3] if minor < 4 else [1, 6, 7])
+        las = laspy.create(point_format=fmt, file_version=f"1.{minor}")
+        n = ck.rng.choice([2, 5, 9])
+        las.x = [float(i) for i in range(n)]
+        v = ck.rng.choice([0, 0xFFFF, 16, ck.rng.randrange(65536)])
+        las.header.global_encoding = GlobalEncoding(v)
+        expect = v
+        hist = []
+        for _ in range(ck.rng.randrange(1, 8)):
+            op = ck.rng.choice(["flag", "flag", "points", "filter", "update", "wkt_vlr_add", "wkt_vlr_remove", "evlr_wkt"])
+            if op == "flag":
+                flag, bit = ck.rng.choice(FLAGS)
+                b = ck.rng.randrange(2)
+                setattr(las.header.global_encoding, flag, GpsTimeType(b) if flag == "gps_time_type" else bool(b))
+                expect = (expect & ~(1 << bit)) | (b << bit)
+                hist.append(f"{flag}={b}")
+            elif op == "points":
+                las.points = las.points[np.arange(len(las.points)) % 2 == 0] if len(las.points) > 1 else las.points
+                hist.append("points = points[mask]")
+            elif op == "filter":
+                las = las[np.ones(len(las.points), dtype=bool)]
+                hist.append("las = las[mask]")
+            elif op == "update":
+                las.update_header()
+                hist.append("update_header()")
+            elif op == "wkt_vlr_add":
+                if not las.vlrs.get("WktCoordinateSystemVlr"):
+                    las.vlrs.append(WktCoordinateSystemVlr('GEOGCS["x"]'))
+                hist.append("add WKT VLR")
+            elif op == "wkt_vlr_remove":
+                las.vlrs = [x for x in las.vlrs if type(x).__name__ != "WktCoordinateSystemVlr"]
+                hist.append("remove WKT VLR")
+            elif minor >= 4:
+                from laspy.vlrs.vlrlist import VLRList
+                las.evlrs = VLRList([WktCoordinateSystemVlr('GEOGCS["y"]')])
+                hist.append("WKT as EVLR")
+            inp = {"kind": "lasdata", "minor": minor, "fmt": fmt, "value": v, "history": hist[:]}
+            if las.header.global_encoding.value != expect:
+                ck.fail(f"LAS 1.{minor}: after {hist[-1]} the field is {las.header.global_encoding.value}, the assignments made it {expect}", inp)
+                expect = las.header.global_encoding.value
+        ck.case(("lasdata", minor, fmt, v, tuple(hist)), nontrivial=True)
+        ck.count("lasdata_histories")
+        inp = {"kind": "lasdata", "minor": minor, "fmt": fmt, "value": v, "history": hist[:]}
+        try:
+            buf = io.BytesIO()
+            las.write(buf)
+            data = buf.getvalue()
+            if int.from_bytes(data[6:8], "little") != expect:
+                ck.fail(f"LAS 1.{minor}: the written file carries {int.from_bytes(data[6:8], 'little')}, the field was {expect}", dict(inp, step="write"))
+            back = laspy.read(io.BytesIO(data))
+            if back.header.global_encoding.value != expect:
+                ck.fail(f"LAS 1.{minor}: read back {back.header.global_encoding.value}, written {expect}", dict(inp, step="read"))
+            if not (minor >= 4 and las.evlrs):
+                ap = io.BytesIO(data)
+                with laspy.open(ap, mode="a", closefd=False) as a:
+                    a.append_points(las.points)
+                if int.from_bytes(ap.getvalue()[6:8], "little") != expect:
+                    ck.fail(f"LAS 1.{minor}: after an append session the file carries {int.from_bytes(ap.getvalue()[6:8], 'little')}, it was {expect}", dict(inp, step="append"))
+        except Exception as e:
+            ck.fail(f"LAS 1.{minor}: file round trip of the field raised {type(e).__name__}: {e}", inp)
 
 
 def run(ck):
@@ -157,6 +229,16 @@ def run(ck):
         if msg:
             ck.fail(msg, {"kind": "header", "value": v})
     ck.count("header_roundtrips", len(vals))
+    # the same through the headers of the other versions (the field has the same place and width in all of them)
+    for minor in (1, 2, 3):
+        sub = sorted(set([0, 1, 16, 31, 0xFFE0, 0xFFFF] + [ck.rng.randrange(65536) for _ in range(128 if ck.tier == "quick" else 8192)]))
+        for v in sub:
+            msg = header_roundtrip(v, minor)
+            ck.case(("hdr", minor, v), nontrivial=v != 0)
+            if msg:
+                ck.fail(f"LAS 1.{minor}: " + msg, {"kind": "header", "value": v, "minor": minor})
+        ck.count("header_roundtrips_1.%d" % minor, len(sub))
+    lasdata_layer(ck, 60 if ck.tier == "quick" else 2500)
     ck.failures.sort(key=lambda f: (f["input"].get("value", 0), f["input"].get("target", 0)))
     if ck.tier == "thorough":
         ck.leanchecker(["LasModel.Props.C20"])
